@@ -65,6 +65,7 @@ func (t *target) start(r *runner) {
 	}
 
 	t.status = statusRunning
+	r.running.Add(1)
 	verifPoint("start.spawn", t)
 	t.m.Unlock()
 
@@ -96,6 +97,8 @@ func (t *target) run(r *runner) {
 
 	verifPoint("run.begin", t)
 	defer verifPoint("run.end", t)
+	defer r.running.Done()
+
 	r.gate.enter()
 	defer r.gate.exit()
 	defer verifPoint("run.exit", t)
@@ -231,6 +234,7 @@ type runner struct {
 	targetLoader Targets
 	targetMap    sync.Map // map[string]*target
 	gate         *gate
+	running      sync.WaitGroup // targets started and not yet finished
 }
 
 func (r *runner) getTarget(label string) *target {
@@ -245,5 +249,10 @@ func Run(targets Targets, label string) error {
 	verifPoint("main.start", t)
 	t.start(&r)
 	verifPoint("main.wait", t)
-	return t.wait()
+	err := t.wait()
+
+	// A target that detects a dependency cycle returns from EvaluateTargets without waiting for the
+	// dependencies it has started. Do not return while any target is still running.
+	r.running.Wait()
+	return err
 }
